@@ -228,6 +228,24 @@ func (c *Chain) Forge(height uint64, salt uint64) *Header {
 	return &Header{Chain: o.Chain, H: o.H, T: o.T, Prev: o.Prev, Epoch: o.Epoch, BadSig: true, Salt: salt}
 }
 
+// Fork returns a chain that shares this chain's headers below `from` and continues with different, equally valid
+// headers (other hashes, same heights and times) from there on: what a node sees after a re-organisation.
+func (c *Chain) Fork(from uint64, salt uint64) *Chain {
+	f := &Chain{ID: c.ID, First: c.First, byHash: map[string]*Header{}}
+	var prev header.Hash
+	for _, o := range c.Headers {
+		if o.H < from {
+			f.add(o)
+			prev = o.Hash()
+			continue
+		}
+		h := &Header{Chain: o.Chain, H: o.H, T: o.T, Prev: prev, Epoch: o.Epoch, Salt: salt}
+		f.add(h)
+		prev = h.Hash()
+	}
+	return f
+}
+
 // Clone returns a field copy with fresh hash cache.
 func (h *Header) Clone() *Header {
 	return &Header{Chain: h.Chain, H: h.H, T: h.T, Prev: h.Prev, Epoch: h.Epoch, BadSig: h.BadSig,
